@@ -536,6 +536,17 @@ def run(ctx):
         run.instance(R10, {"fn": "owner::process_invoice_tx", "obligation": "the invoice is answered only if no context is stored for it, or the stored one holds no inputs (the invoicer's, self-sent)"}, held=held)
         if not held:
             run.finding(Finding(R10, pit.id, "a second process_invoice_tx for the same invoice (before tx_lock_outputs) finds the payer's own stored context, takes it for the invoicer's of a self-sent invoice and leaves inputs and outputs out of the offset: the reply's offset is the negated secret excess of the payer", site=pit.loc()))
+        # ... nor the context of a pending late-locked send with that id (it holds no inputs yet either): the
+        # recipient of such a send knows its id and could issue an invoice under it
+        from .shared import option_field_none_edges
+        ll_none = option_field_none_edges(pit, c.LW + "types::Context", "late_lock_args")
+        no_ctx = set()
+        for b, _t in gpc:
+            no_ctx |= cfg.call_guard(pit, b).fail
+        held_ll = bool(gpc) and bool(ais) and bool(ll_none) and cfg.must_pass(pit, no_ctx | ll_none, ais)[0]
+        run.instance(R10, {"fn": "owner::process_invoice_tx", "obligation": "a stored context with pending late-lock arguments (a late-locked send of this wallet under the same id) is not taken for the invoicer's", "none edges": len(ll_none)}, held=held_ll)
+        if not held_ll:
+            run.finding(Finding(R10, pit.id, "an invoice issued under the id of a pending late-locked send finds that send's stored context (no inputs yet), is answered as a self-sent invoice - the reply's offset is the negated secret excess of the payer - and the merged context overwrites the send's", site=pit.loc()))
     R11 = "C12.R11"
     run.rule(R11, "a context that has signed is not left in the store: an API step that hands out a partial signature made with a context's (sec_key, sec_nonce) does not also store that context for a later step, unless that step deletes it - a second signature with the same nonce over another message reveals the key", floor=3)
     TX11 = c.LW + "internal::tx::"
